@@ -26,6 +26,8 @@ def cfg_val(c):
 
 def alphabet(c):
     al = [97, 97, 98, 120, 32, 13]
+    if c["ltbyte"] != 10:
+        al.append(10)          # records that contain line feeds (e.g. --null-data)
     return [b for b in al if b != c["ltbyte"]]
 
 
